@@ -104,7 +104,7 @@ def case_unitary(T, alg):
     _guard(T, "inv(kron(unitary,perm))", lambda: _observe(T, "inv(kron(unitary,perm))", Ak, ref_kron(T, R, Rp), cola.linalg.inv(Ak)))
 
 
-def case_cg(T, n, variant, alg_via):
+def case_cg(T, n, variant, alg_via, x0case=False):
     """inv(A, CG(max_iters >= n)) / Auto on a PSD operator: exact solution after n steps (C12 parametrisation)"""
     from .c12 import cg_matrix
     dt = 'float64'
@@ -119,6 +119,8 @@ def case_cg(T, n, variant, alg_via):
     A = Q @ Tm @ Q.T
     b = s * Q[:, 0]
     Aop = cola.PSD(cola.ops.Dense(A))
+    if x0case:
+        return _cg_x0(T, n, A, Aop, b, dt)
     Ainv = cola.linalg.inv(Aop, cola.linalg.CG(tol=1e-12, max_iters=n + 1))
     x = Ainv @ b
     T.eq("inv(CG) @ b solves A x = b", A @ x, b, dtype=False)
@@ -126,6 +128,17 @@ def case_cg(T, n, variant, alg_via):
     xs = cola.linalg.solve(Aop, b, cola.linalg.CG(tol=1e-12, max_iters=n + 1))
     T.eq("solve(CG) solves A x = b", A @ xs, b, dtype=False)
     ok, e = T.raises("CG refuses an operator not declared PSD", (AssertionError, ), lambda: cola.linalg.inv(cola.ops.Dense(A), cola.linalg.CG()))
+
+
+def _cg_x0(T, n, A, Aop, b, dt):
+    # a (vector) initial guess configured on the algorithm object
+    from fractions import Fraction as Fr
+    x0 = K.mat(T, [[K.cst(T, v) for v in (Fr(1, 2), Fr(-2, 3), Fr(3, 4))[:n]]], dt)[0]
+    b2 = A @ x0 + b
+    x2 = cola.linalg.inv(Aop, cola.linalg.CG(tol=1e-12, max_iters=n + 1, x0=x0)) @ b2
+    T.check("inv(CG(x0)) @ b: shape", tuple(x2.shape) == (n, ), f"{x2.shape}")
+    if tuple(x2.shape) == (n, ):
+        T.eq("inv(CG(x0)) @ b solves A x = b", A @ x2, b2, dtype=False)
 
 
 def case_gmres(T, n, variant):
@@ -143,6 +156,17 @@ def case_gmres(T, n, variant):
     Ainv = cola.linalg.inv(cola.ops.Dense(A), cola.linalg.GMRES(tol=1e-9, max_iters=n))
     x = Ainv @ b
     T.eq("inv(GMRES) @ b solves A x = b", A @ x, b, dtype=False)
+    # a non-zero initial guess handed over through the algorithm object: b' = A x0 + b has the same Krylov data for the residual
+    from fractions import Fraction as Fr
+    x0 = K.mat(T, [[K.cst(T, v) for v in (Fr(1, 2), Fr(-2, 3), Fr(3, 4))[:n]]], dt)[0]
+    b2 = A @ x0 + b
+    x2 = cola.linalg.inv(cola.ops.Dense(A), cola.linalg.GMRES(tol=1e-9, max_iters=n, x0=x0)) @ b2
+    T.check("inv(GMRES(x0)) @ b: shape", tuple(x2.shape) == (n, ), f"{x2.shape}")
+    if tuple(x2.shape) == (n, ):
+        T.eq("inv(GMRES(x0)) @ b solves A x = b", A @ x2, b2, dtype=False)
+    x3 = cola.linalg.solve(cola.ops.Dense(A), b2, cola.linalg.GMRES(tol=1e-9, max_iters=n, x0=x0))
+    if tuple(x3.shape) == (n, ):
+        T.eq("solve(GMRES(x0)) solves A x = b", A @ x3, b2, dtype=False)
 
 
 class _Selected(Exception):
@@ -212,6 +236,7 @@ def cases(tier, seed):
     out.append(("unitary", case_unitary, dict(alg="default")))
     for n in (2, 3):
         out.append((f"cg:n{n}", case_cg, dict(n=n, variant=0, alg_via="inv"), dict(partial_ok=True)))
+        out.append((f"cg-x0:n{n}", case_cg, dict(n=n, variant=0, alg_via="inv", x0case=True), dict(partial_ok=True, max_paths=3, flip_timeout_ms=1500)))
         out.append((f"gmres:n{n}", case_gmres, dict(n=n, variant=0), dict(partial_ok=True)))
     out.append(("auto-large:psd", case_auto_large, dict(psd=True), dict(validate=False)))
     out.append(("auto-large:general", case_auto_large, dict(psd=False), dict(validate=False)))
